@@ -2,10 +2,13 @@ import Ggql.Driver.Loop
 import Ggql.Gen.Skip
 import Ggql.Gen.Locks
 import Ggql.Gen.Coerce
+import Ggql.Gen.Tables
 open Ggql Ggql.Driver
 
 def genTables : Tables :=
-  { skip := Gen.skipTable, locks := Gen.lockTable,
+  { skip := Gen.skipTable,
+    valueTbl := { charMap := Gen.charMap, numMap := Gen.numMap, spaceClass := Gen.spaceClass, tokenClass := Gen.tokenClass,
+                  numClass := Gen.numClass, escapes := Gen.escapeTable, unescapes := Gen.unescapeTable, terminators := Gen.numberTerminators }, locks := Gen.lockTable,
     outInt := Gen.coerceOutInt, inInt := Gen.coerceInInt,
     outInt64 := Gen.coerceOutInt64, inInt64 := Gen.coerceInInt64,
     outFloat := Gen.coerceOutFloat, inFloat := Gen.coerceInFloat,
